@@ -938,7 +938,7 @@ REAL_PARTNERS = ['Obs', 'num_right:int', 'num_right:float', 'num_left:int', 'num
 
 
 def plan(tier):
-    m = 1 if tier == 'quick' else 25
+    m = 4 if tier == 'quick' else 40
     p = []
     for name in FUNCS:
         p.append(('un:' + name, 6 * m))
